@@ -67,12 +67,12 @@ type c11Scenario struct {
 	// before its members; nothing in the documentation forbids forward references)
 	CurveOrder []int       `json:"curveOrder,omitempty"`
 	Sensors    []c11Sensor `json:"sensors"`
-	Curves    []c11Curve  `json:"curves"`
-	Fans      []c11Fan    `json:"fans"`
-	Defects   []string    `json:"defects"`
-	LowerKeys bool        `json:"lowerKeys,omitempty"`
-	Flow      bool        `json:"flow,omitempty"`
-	Quote     int         `json:"quote,omitempty"`
+	Curves     []c11Curve  `json:"curves"`
+	Fans       []c11Fan    `json:"fans"`
+	Defects    []string    `json:"defects"`
+	LowerKeys  bool        `json:"lowerKeys,omitempty"`
+	Flow       bool        `json:"flow,omitempty"`
+	Quote      int         `json:"quote,omitempty"`
 }
 
 var c11Ids = []string{"cpu", "gpu", "case_avg", "m2-ssd", "a", "b", "c", "d", "front", "rear", "x1", "x2"}
